@@ -293,6 +293,22 @@ func (x *Exec) global(g *ssa.Global) Value {
 	// foreign package globals are not initialised (init not run): give error
 	// variables a distinct identity so errors.Is / == behave.
 	if g.Pkg != nil && !x.H.ownPkg(g.Pkg) {
+		if g.Pkg.Pkg.Path() == "io" && g.Name() == "blackHolePool" {
+			sv := (*cell).(StructV)
+			sv[len(sv)-1] = &Closure{Name: "blackHolePool.New", Nat: func(x *Exec, _ []Value) Value {
+				a := make([]Value, 8192)
+				z := MkBV(8, 0)
+				for i := range a {
+					a[i] = z
+				}
+				p := new(Value)
+				*p = SliceV{A: a}
+				return Iface{T: types.NewPointer(types.NewSlice(types.Typ[types.Byte])), V: p}
+			}}
+		}
+		if g.Pkg.Pkg.Path() == "io" && g.Name() == "Discard" {
+			*cell = Iface{T: g.Pkg.Pkg.Scope().Lookup("discard").Type(), V: StructV{}}
+		}
 		if types.Identical(et, errorType) {
 			obj := new(Value)
 			*obj = StructV{MkStr(g.Pkg.Pkg.Path() + "." + g.Name())}
@@ -498,6 +514,12 @@ func (x *Exec) nativeResult(g *G, retTo ssa.Value, r Value) {
 
 type blockSignal struct{}
 
+// tailCall: an intrinsic asks the engine to call fn instead.
+type tailCall struct {
+	fn   Value
+	args []Value
+}
+
 func (x *Exec) callFn(g *G, fn *ssa.Function, args []Value, env []Value, retTo ssa.Value) *Frame {
 	if !x.initDone && fn.Name() == "init" && fn.Pkg != nil && !x.H.ownPkg(fn.Pkg) {
 		return nil // foreign package initialisers are not run
@@ -505,6 +527,9 @@ func (x *Exec) callFn(g *G, fn *ssa.Function, args []Value, env []Value, retTo s
 	if in := lookupIntrinsic(fn); in != nil {
 		r, handled := in(x, g, fn, args)
 		if handled {
+			if tc, ok := r.(tailCall); ok {
+				return x.callValue(g, tc.fn, tc.args, retTo, nil)
+			}
 			x.nativeResult(g, retTo, r)
 			return nil
 		}
@@ -588,13 +613,21 @@ func (x *Exec) exec(g *G, fr *Frame, instr ssa.Instruction) bool {
 			x.runtimePanic("makeslice: len out of range")
 			return false
 		}
-		if c > 1<<20 {
+		if c > 1<<25 {
 			x.unsupported("makeslice of %d elements", c)
 		}
 		et := under(in.Type()).(*types.Slice).Elem()
 		a := make([]Value, n, c)
-		for i := range a {
-			a[i] = zero(et)
+		if n > 0 {
+			z := zero(et)
+			_, scalar := z.(*Term)
+			for i := range a {
+				if scalar {
+					a[i] = z
+				} else {
+					a[i] = zero(et)
+				}
+			}
 		}
 		x.set(fr, in, SliceV{A: a})
 	case *ssa.MakeChan:
